@@ -25,9 +25,9 @@ func init() {
 	}
 	vf.Register(&vf.Prop{
 		ID: "C18", Level: "model_checking",
-		Rule: "programs = slices of every C11 extension table, C10 statement bodies and a mixed program (operators, constraints, unsafe, composite literals in headers, labels, closures), each built in its own package over its own importer. " +
-			"(A) shared-state fingerprint: a deep hash (reflect + unsafe, through pointers, maps, slices, interfaces and unexported fields) of everything reachable from every package-level variable of the library (list generated from the syntax of /repo) is taken before and after building each program; after one warm-up build of the same program the hash must not change. " +
-			"(B) interleavings: for every ordered pair of programs the two builds run as two threads under a cooperative scheduler whose scheduling points are the entry of every library function that refers to a package-level variable (inserted mechanically in the build overlay); depth-first exploration of all schedules with at most 1 (thorough: 2) preemptions; in every schedule both outputs (files, per-row verdicts) must equal the sequential outputs and the fingerprint must be unchanged; one recorded schedule per pair is replayed and must reproduce the same observations. " +
+		Rule: "programs = slices of every C11 extension table, C10 statement bodies, an API program (unit literals, composite literals, definition groups, tuples, comments, method values, labels, second file; evidence lists the exported entry points no program reaches) and a mixed program (operators, constraints, unsafe, composite literals in headers, labels, closures), each built in its own package over its own importer. " +
+			"(A) shared-state fingerprint: a deep hash (reflect + unsafe, through pointers, maps, slices, interfaces and unexported fields) of everything reachable from every package-level variable of the library (list generated from the syntax of /repo) is taken before and after building each program; no build, the first one in a cold process included, may change the hash. " +
+			"(B) interleavings: for ordered pairs of programs (quick: every program with itself, its successor and the mixed program; thorough: with itself, its three successors, the API program and the mixed program) the two builds run as two threads under a cooperative scheduler whose scheduling points are the entry of every library function that refers to a package-level variable (inserted mechanically in the build overlay); depth-first exploration of all schedules with at most 1 (thorough: 2) preemptions; in every schedule both outputs (files, per-row verdicts) must equal the sequential outputs and the fingerprint must be unchanged; one recorded schedule per pair is replayed and must reproduce the same observations. " +
 			"(C) the same programs run free on 16 goroutines under the Go race detector, from a cold process (first use of every lazily initialised object is concurrent) and warm; any report is a violation. " +
 			"non-trivial = schedules with at least one preemption; distinct = pair x schedule",
 		Assumptions:    []string{"interference between builds needs a package-level variable (or something reachable from one): stage A lists them from the source, stage B puts a scheduling point in front of every function that uses one", "go/types objects that belong to one importer are not shared between builds"},
